@@ -250,15 +250,27 @@ def run_B(obl, exclude_known=False):
     # obligations first; reach queries until one per label is sat
     order = [q for q in qs if q.kind != 'reach'] + [q for q in qs if q.kind == 'reach']
     nq = 0
+    reach_ok_early = set()
 
     def discharge(q, txt, logic):
         return q, smt.portfolio(txt, solvers=solvers, timeout=obl.timeout, workdir=BUILD), logic
 
     with ThreadPoolExecutor(max_workers=int(os.environ.get('VERIF_SMT_WORKERS', '4'))) as pool:
         futs = []
+        inproc_ms = int(obl.opts.get('inproc_ms', 2500))
         for q in order:
             if q.kind == 'reach':
                 reach_labels.add(q.labels[0])
+                if q.labels[0] in reach_ok_early:
+                    continue
+            # fast path: z3 (python API, v5.1) in-process on the sliced query; external portfolio only when undecided
+            pre = smt.solve_inproc(q, inproc_ms) if inproc_ms > 0 else None
+            if pre is not None:
+                if q.kind == 'reach' and pre['status'] == 'sat':
+                    reach_ok_early.add(q.labels[0])
+                f_ = pool.submit(lambda q=q, pre=pre: (q, pre, None))
+                futs.append(f_)
+                continue
             txt, logic = smt.build_smt2(q)      # z3 API is not thread-safe: emit here, solve in threads
             futs.append(pool.submit(discharge, q, txt, logic))
         for f in futs:
@@ -273,7 +285,28 @@ def run_B(obl, exclude_known=False):
                     reach_ok.add(q.labels[0])
                 continue
             if pr['status'] == 'sat':
-                vals = smt.parse_model(pr['output'], q.inputs)
+                vals = pr['vals'] if 'vals' in pr else smt.parse_model(pr['output'], q.inputs)
+                rest = getattr(q, 'sliced_rest', None) if 'vals' not in pr else None
+                if vals is not None and rest:
+                    # the query was sliced to the cone of influence: complete the model on the independent remainder
+                    txt2, _ = smt.build_smt2(q, only=rest)
+                    pr2 = smt.portfolio(txt2, solvers=solvers, timeout=obl.timeout, workdir=BUILD)
+                    if pr2['status'] == 'sat':
+                        vals2 = smt.parse_model(pr2['output'], q.inputs)
+                        if vals2 is not None:
+                            import z3 as _z3
+                            from .smt import expr_vars
+                            rest_vars = set()
+                            for c_ in rest:
+                                rest_vars |= expr_vars(c_)
+                            for i_, (k_, l_, v_) in enumerate(q.inputs):
+                                if isinstance(v_, _z3.ExprRef) and v_.decl().name() in rest_vars:
+                                    vals[i_] = vals2[i_]
+                    elif pr2['status'] == 'unsat':
+                        vals = None   # the path is infeasible: the sliced sat answer is not a counterexample
+                        stats['sat'] -= 1
+                        stats['unsat'] += 1
+                        continue
                 cex.append({'kind': q.kind if q.kind != 'memory' else 'safety', 'description': '; '.join(q.labels)[:300],
                             'inputs': vals, 'solver': pr['solver'], 'path': q.path})
             elif pr['status'] == 'unknown':
